@@ -239,6 +239,36 @@ def check_whole_axis(ctx, fi, rule='R-TILE/whole-axis'):
             if len(inner) != 1:
                 break
             core = inner[0]
+        # ... or round(N / S), np.round(N / S).astype(int), int(N / S):
+        # rounding to the nearest (or towards zero) is not a ceiling either
+        def _unwrap_round(c):
+            while isinstance(c, tuple) and c and c[0] == 'call':
+                nm = None
+                f_ = c[1]
+                if f_[0] == 'name':
+                    nm = f_[1]
+                elif f_[0] == 'attr':
+                    nm = f_[2]
+                if nm in ('astype', 'item', 'tolist') and f_[0] == 'attr':
+                    c = f_[1]
+                    continue
+                if nm in ('round', 'around', 'rint', 'floor', 'int',
+                          'trunc', 'fix', 'int64', 'intp') and c[2]:
+                    c = c[2][0]
+                    if isinstance(c, tuple) and c and c[0] == 'binop' \
+                            and c[1] == 'Div':
+                        return ('binop', 'FloorDiv', c[2], c[3])
+                    continue
+                break
+            return c
+        core = _unwrap_round(core)
+        while isinstance(core, tuple) and core and core[0] == 'call' \
+                and core[1][0] == 'name' and core[1][1] in (
+                    'max', 'min', 'int') and core[2]:
+            inner = [a for a in core[2] if a[0] != 'const']
+            if len(inner) != 1:
+                break
+            core = _unwrap_round(inner[0])
         if not (isinstance(core, tuple) and core and core[0] == 'binop'
                 and core[1] == 'FloorDiv'):
             continue
@@ -606,4 +636,86 @@ def check_copy_not_filtered_by_content(
                    f'`{unparse(bad)[:50]}` holds, a test on the content '
                    'just read from the source: pieces the test misjudges '
                    'are left at the fill value')
+    return n
+
+
+def check_extent_follows_array(ctx, fi, rule='R-TILE/extent-of-the-array'):
+    """a tiling loop that runs inside a loop over several arrays (`for el
+    in ('indptr', 'indices', 'data'): ... for i0 in range(0, N, S):
+    dst[el][i0:i1] = src[el][i0:i1]`) needs the extent of *the array of
+    the current turn*: when the array sliced by the window depends on the
+    outer loop variable, so must N.  An extent computed once from one of
+    the arrays is wrong for every array of another length: the longer
+    ones are cut short, silently."""
+    from ..core import terms as T
+    cfg = cfg_of(fi)
+    rd = rd_of(fi)
+    ex = Expander(fi)
+    n = 0
+    for loop in _tiling_loops(fi):
+        # enclosing loops over a display of constants
+        outers = []
+        p_ = getattr(loop, '_parent', None)
+        while p_ is not None and not isinstance(p_, (ast.FunctionDef,
+                                                     ast.AsyncFunctionDef)):
+            if isinstance(p_, ast.For) and isinstance(
+                    p_.target, ast.Name) and isinstance(
+                        p_.iter, (ast.Tuple, ast.List)) and p_.iter.elts \
+                    and all(isinstance(e, ast.Constant)
+                            for e in p_.iter.elts):
+                outers.append(p_)
+            p_ = getattr(p_, '_parent', None)
+        if not outers:
+            continue
+        hdr = [x for x in cfg.nodes_of(loop) if x.kind == 'for'
+               and x.id in rd.live]
+        if not hdr:
+            continue
+        v = loop.target.id
+        tN = ex.expand(loop.iter.args[1], hdr[0].id)
+        for outer in outers:
+            ov = outer.target.id
+            # arrays sliced by the window whose term depends on the outer
+            # loop variable
+            dep = []
+            for st in ast.walk(loop):
+                if not isinstance(st, ast.Subscript):
+                    continue
+                sl = st.slice
+                parts = sl.elts if isinstance(sl, ast.Tuple) else [sl]
+                if not any(isinstance(x, ast.Slice) and x.lower is not None
+                           and any(isinstance(y, ast.Name) and y.id == v
+                                   for y in ast.walk(x.lower))
+                           for x in parts):
+                    continue
+                ns = [x for x in cfg.node_of_expr(st) if x.id in rd.live]
+                if not ns:
+                    continue
+                tb = ex.expand(st.value, ns[0].id)
+                if any(isinstance(x, tuple) and x and x[0] in (
+                        'iterelem',) for x in T.subterms(tb)) or any(
+                            isinstance(y, ast.Name) and y.id == ov
+                            for y in ast.walk(st.value)):
+                    dep.append(st)
+            if not dep:
+                continue
+            n += 1
+            n_dep = any(isinstance(x, tuple) and x and x[0] == 'iterelem'
+                        for x in T.subterms(tN)) or any(
+                isinstance(y, ast.Name) and y.id == ov
+                for y in ast.walk(loop.iter.args[1]))
+            # through a local assigned inside the outer loop from the array
+            if not n_dep and isinstance(loop.iter.args[1], ast.Name):
+                for d in rd.reaching(loop.iter.args[1].id, hdr[0].id):
+                    if d.stmt is not None and any(
+                            d.stmt is x for x in ast.walk(outer)):
+                        n_dep = True
+            ctx.touch(fi)
+            ctx.ob(rule, f'{fi.qual}:range#{n - 1}', fi.loc(loop), n_dep,
+                   'the extent is that of the array of the current turn'
+                   if n_dep else
+                   f'`{unparse(dep[0])[:40]}` changes with `{ov}`, but the '
+                   f'extent `{unparse(loop.iter.args[1])[:40]}` of the '
+                   'tiling loop was computed once, from one array: arrays '
+                   'of another length are copied short')
     return n
